@@ -7,6 +7,7 @@ sys.path.insert(0, os.path.join(vlib.VERIF, "tools", "translate"))
 import tr_c20 as tr
 
 PROP = "C20"
+PLACES = os.path.join(vlib.VERIF, "harness", "c20p.cc")
 HARNESS = os.path.join(vlib.VERIF, "harness", "c20.cc")
 GEN_INC = os.path.join(vlib.VERIF, ".cache", "gen")
 
@@ -46,11 +47,26 @@ def run(tier, seed, replay=None):
     except Exception as e:
         ob["ok"] = False
         ob["failures"].append("harness could not be generated: %r" % (e,))
+    # the other places of the library that encode a conversion: reader / writer code paths observed on real files
+    try:
+        pexe = vbuild.build_exe("c20p", [PLACES], ["tools", "csg"], flavour="ndebug")
+        tmp = os.path.join(vlib.VERIF, ".cache", "tmp")
+        os.makedirs(tmp, exist_ok=True)
+        rc, out, err = vlib.run_harness(pexe, [], env={"VERIF_TMP": tmp})
+        if rc != 0:
+            ck.aborts.append({"what": "places harness exited %d: %s" % (rc, err[-300:]), "lines": []})
+        if ob.get("driver_ok", True):
+            ck.feed("reader / writer code paths", b"\n".join(l for l in out.splitlines() if l.startswith(b"C20 ")) + b"\n")
+    except vbuild.BuildError as e:
+        ob["ok"] = False
+        ob["failures"].append("places harness does not compile against the current source: " + str(e)[-400:])
     return ck.finish(
         ob,
         rule="exhaustive: every ordered pair of units of every dimension, every tools::conv constant, every element symbol of "
              "the real code, compared with the regenerated tables (rel 1e-13) and judged against SI/CODATA 2018, the quotient of base "
-             "conversions and the cross-place list; distinct = distinct protocol lines, all non-trivial",
+             "conversions and the cross-place list; other places: the factor applied by each reader / writer code path (LAMMPS dump reader with x y z, xu yu zu and "
+             "xs ys zs columns, box, velocity, force; LAMMPS dump writer; LAMMPS data reader; XYZ and PDB readers and writers) observed on files with known "
+             "values; distinct = distinct protocol lines, all non-trivial",
         assumptions=["CODATA 2018 / SI / IUPAC reference values in lean/Votca/Model/C20.lean were typed in by hand",
                      "translator tools/translate/tr_c20.py (regex over the preprocessed text; validated by the correspondence run)",
                      "'four significant digits' is read as relative difference <= 5e-4; element masses 0.5 %"],
